@@ -20,7 +20,7 @@ import (
 var c06Chars = []string{"a", `"`, `\`, "n", "\n", "\t", "\r", "¬", "ʞ", "{", "}", ";", "$", "(", " ", "😀", ":", "\ufeff", "\x00"}
 
 // identifier characters (scanner's isIdentRune alphabet, reduced)
-var c06IdentChars = []string{"a", "b", "-", "1", "/", "<", "=", "ü", "*", "+", "?", "!", "_", ">", "$"}
+var c06IdentChars = []string{"a", "b", "-", "1", "/", "<", "=", "ü", "*", "+", "?", "!", "_", ">", "$", "ʞ"}
 
 func isIdentStart(c string) bool { return c != "-" && c != "1" }
 
